@@ -77,23 +77,36 @@ theorem c02_conforming_accepted (E : Engine) (hE : EngineSpec E) (f : Nat) (o : 
 
 end NmlVerif.Schema
 
-/-! ### KNOWN FINDING `C02:nonfinite-float-lexical` -/
+/-! ### FIXED FINDING `C02:nonfinite-float-lexical` -/
 namespace NmlVerif.Facets
 open NmlVerif.Rx
 
-/-- a Python float as `gds_format_double` sees it: `"%s" % value` is the shortest repr of a finite value, or one of
-    Python's three spellings -/
+/-- a Python float as the scalar formats see it: a finite value (carried by the text the format gives it — `"%s" %
+    value` for `gds_format_double`, the stripped `"%.15f"` for `gds_format_float`) or one of the three non-finite
+    values -/
 inductive PyFloat where
   | finite (repr : List Char)
   | inf | ninf | nan
 deriving DecidableEq, Repr
 
-/-- `gds_format_double(value) = "%s" % value` -/
-def gdsFormatDouble : PyFloat → List Char
+/-- `gds_format_double` / `gds_format_float` on the three non-finite values and on a finite one.  `specials = false`:
+    the code before the repair (`"%s" % value`, `"%.15f" % value` give Python's spellings); `specials = true`: the
+    repaired code maps `inf`, `-inf`, `nan` to `INF`, `-INF`, `NaN`.  The flag is extracted from `nml.py` on every run
+    (`Gen.Validators.floatSpecials`, `doubleSpecials`). -/
+def gdsFormatFloating (specials : Bool) : PyFloat → List Char
   | .finite r => r
-  | .inf => ['i', 'n', 'f']
-  | .ninf => ['-', 'i', 'n', 'f']
-  | .nan => ['n', 'a', 'n']
+  | .inf => if specials then ['I', 'N', 'F'] else ['i', 'n', 'f']
+  | .ninf => if specials then ['-', 'I', 'N', 'F'] else ['-', 'i', 'n', 'f']
+  | .nan => if specials then ['N', 'a', 'N'] else ['n', 'a', 'n']
+
+/-- `gds_parse_float` / `gds_parse_double` = `float(text)` on the spellings of the non-finite values (CPython accepts
+    `inf`, `infinity`, `nan` in any case, with a sign); other texts are not modelled here -/
+def pyFloatOfSpecial (s : List Char) : Option PyFloat :=
+  let l := s.map Char.toLower
+  if l = ['i', 'n', 'f'] ∨ l = ['+', 'i', 'n', 'f'] then some .inf
+  else if l = ['-', 'i', 'n', 'f'] then some .ninf
+  else if l = ['n', 'a', 'n'] ∨ l = ['-', 'n', 'a', 'n'] ∨ l = ['+', 'n', 'a', 'n'] then some .nan
+  else none
 
 def sgn : Rx := Rx.opt (.alt (Rx.chr '+') (Rx.chr '-'))
 /-- the lexical space of `xs:double` / `xs:float` (XSD 1.0 §3.2.5.1): a decimal numeral with an optional exponent, or
@@ -105,22 +118,54 @@ def doubleLexRx : Rx :=
           (.seq (Rx.chr 'N') (.seq (Rx.chr 'a') (Rx.chr 'N'))))
 
 /-- every float of the value space is written inside the lexical space -/
-def C02_double_lexical_full : Prop :=
-  ∀ f : PyFloat, (∀ r, f = .finite r → accepts doubleLexRx r = true) → accepts doubleLexRx (gdsFormatDouble f) = true
+def C02_double_lexical_full (specials : Bool) : Prop :=
+  ∀ f : PyFloat, (∀ r, f = .finite r → accepts doubleLexRx r = true) →
+    accepts doubleLexRx (gdsFormatFloating specials f) = true
 
-/-- infinity is in the value space of `xs:double` and is written `inf`, which the schema does not accept -/
-theorem c02_nonfinite_witness : ¬ C02_double_lexical_full := by
+/-- before the repair: infinity is in the value space of `xs:double` and was written `inf`, which the schema does not
+    accept -/
+theorem c02_nonfinite_witness : ¬ C02_double_lexical_full false := by
   intro h
   have := h .inf (fun r hr => by cases hr)
-  have hf : accepts doubleLexRx (gdsFormatDouble .inf) = false := by decide +kernel
+  have hf : accepts doubleLexRx (gdsFormatFloating false .inf) = false := by decide +kernel
   rw [hf] at this; cases this
 
-/-- the part that holds: finite values (whose repr is a decimal / scientific numeral: trusted of CPython, sampled) -/
-theorem c02_double_lexical_partial (r : List Char) (hr : accepts doubleLexRx r = true) :
-    accepts doubleLexRx (gdsFormatDouble (.finite r)) = true := hr
+/-- **after the repair the full statement holds**: every float whose finite text is a numeral is written inside the
+    lexical space of `xs:double` / `xs:float` -/
+theorem c02_double_lexical_fixed : C02_double_lexical_full true := by
+  intro f hf
+  cases f with
+  | finite r => exact hf r rfl
+  | inf => decide +kernel
+  | ninf => decide +kernel
+  | nan => decide +kernel
+
+/-- … and the non-finite values are read back as themselves (`float("INF")`, `float("-INF")`, `float("NaN")`) -/
+theorem c02_nonfinite_roundtrip (f : PyFloat) (h : ∀ r, f ≠ .finite r) :
+    pyFloatOfSpecial (gdsFormatFloating true f) = some f := by
+  cases f with
+  | finite r => exact absurd rfl (h r)
+  | inf => decide
+  | ninf => decide
+  | nan => decide
+
+/-- for the formats as extracted from today's `nml.py`: if both carry the repair, the full statement holds of them -/
+theorem c02_double_lexical_today
+    (h : (NmlVerif.Gen.Validators.floatSpecials && NmlVerif.Gen.Validators.doubleSpecials) = true) :
+    C02_double_lexical_full NmlVerif.Gen.Validators.floatSpecials
+    ∧ C02_double_lexical_full NmlVerif.Gen.Validators.doubleSpecials := by
+  simp only [Bool.and_eq_true] at h
+  rw [h.1, h.2]
+  exact ⟨c02_double_lexical_fixed, c02_double_lexical_fixed⟩
+
+/-- the parsers read through `float()` (extracted shape; needed by the round trip) -/
+theorem parse_through_float : NmlVerif.Gen.Validators.parseThroughFloat = true := by decide
+
+/-- finite values, either way: the text is what the format produced (trusted of CPython's `%`, sampled) -/
+theorem c02_double_lexical_partial (b : Bool) (r : List Char) (hr : accepts doubleLexRx r = true) :
+    accepts doubleLexRx (gdsFormatFloating b (.finite r)) = true := hr
 
 example : accepts doubleLexRx ['1', 'e', '+', '3', '0', '0'] = true ∧ accepts doubleLexRx ['-', '0', '.', '5'] = true
     ∧ accepts doubleLexRx ['I', 'N', 'F'] = true ∧ accepts doubleLexRx ['n', 'a', 'n'] = false := by decide +kernel
 
 end NmlVerif.Facets
-
